@@ -514,7 +514,8 @@ OwnGScaled(dt) ==
 OddPoints == {P(2, -1), P(2, -3), P(1, 1), P(1, 3), P(1, 0), P(-2, 1), P(-2, 3), P(-1, -1), P(0, 1), P(0, -1)}   \* odd integers just below 2^53 / above 2^52, mirrored
 OwnBScaled(dt) ==
     LET ps == UNION {{P(p.a, p.d - 2), P(p.a, p.d - 1), p, P(p.a, p.d + 1), P(p.a, p.d + 2)} : p \in {dt.min, dt.max}} \cup OddPoints IN
-    {GI(p.a, p.d) : p \in ps} \cup {BG(p.a, p.d) : p \in ps}
+    {GI(p.a, p.d) : p \in ps}
+    \cup {BG(p.a, p.d) : p \in {q \in ps : PLE(P(-2, 0), q) /\ PLE(q, P(2, 0))}}      \* (beyond +-2^53 not every grid point is a double)
 OwnEnum(dt) ==
     UNION {{I(m.v), Lit(m.n), Mem(m.v, m.n), N(m.v * U), N(m.v * U + 8)} : m \in Rng(dt.mem)}
     \cup {I(99), Lit("zz"), Mem(99, "zz"), Mem(dt.mem[1].v, "zz")}
@@ -555,7 +556,7 @@ IVal(dt) ==
       [] dt.k = "bigint" -> BI(dt.min.a, dt.min.d)
       [] dt.k = "scaled" -> N(dt.max)
       [] dt.k = "gscaled" -> G(4 * dt.min, FALSE)
-      [] dt.k = "bscaled" -> BG(dt.min.a, dt.min.d)
+      [] dt.k = "bscaled" -> BG(dt.min.a, dt.min.d + 1)      \* (not the limit itself, see C01-scaled-limit-at-2^53-rejected)
       [] dt.k = "bool" -> B(FALSE)
       [] dt.k = "enum" -> Mem(dt.mem[Len(dt.mem)].v, dt.mem[Len(dt.mem)].n)
       [] dt.k = "string" -> Plain(Max2(dt.minc, 1))
@@ -1048,7 +1049,7 @@ Depth2N(ns) ==
     \o [i \in 1 .. ns |-> Stc(<<M("s", AB(Sm(i), Sm(i + 1), <<"b">>)), M("k", Sm(i + 2))>>, <<"s">>)]
 Depth2 == Depth2N(NS)
 Depth1Quick ==
-    [i \in 1 .. NL |-> Arr(Lf(i), 0, 2)] \o [i \in 1 .. NL \div 3 |-> Arr(Lf(3 * i), 1, 3)]
+    [i \in 1 .. NL |-> Arr(Lf(i), 0, 2)] \o [i \in 1 .. NL \div 6 |-> Arr(Lf(6 * i - 1), 1, 3)]
     \o [i \in 1 .. NL |-> Tup(<<Lf(i), Lf(i + 1)>>)]
     \o [i \in 1 .. NL \div 2 |-> AB(Lf(2 * i - 1), Lf(2 * i + 4), <<"b">>)]
     \o [i \in 1 .. NL \div 4 |-> AB(Lf(4 * i + 3), Lf(4 * i), IF i % 2 = 0 THEN <<>> ELSE <<"a", "b">>)]
